@@ -1,12 +1,82 @@
 (* C01 - ID estimands equal the true interventional distribution. *)
 From Coq Require Import List Bool.
-From Y0 Require Import Base.ListSet Graph.MixedGraph Dsl.Syntax Dsl.Build Alg.Id Proofs.IdP.
+From Y0 Require Import Base.ListSet Graph.MixedGraph Dsl.Syntax Dsl.Build Alg.Id Proofs.IdP Sem.Scm Proofs.IdSemP.
 Import ListNotations.
 
-(* The soundness statement needs the SCM semantics (planned Sem/Scm.v, DESIGN.md section 5 C01). Proved so far on
-   the model: line 1 (no treatments) returns the marginal of the carried distribution for every graph. *)
+(* The full soundness statement (the estimand evaluates to P(y | do(x)) in every compatible model) is NOT a theorem here: it needs a
+   probabilistic semantics of expressions over SCMs and the c-component factorisation (DESIGN.md section 5 C01); it is checked on generated
+   cases by an exact SCM oracle. Proved for all inputs: line 1 on the model, and - against the formal SCM semantics of Sem/Scm.v - the facts
+   about the interventional values that lines 2 and 3 rely on. They are pointwise in the exogenous state u, hence hold for every distribution
+   of u, i.e. for P(y | do(x)) in every structural causal model over the graph. *)
 Theorem C01_line1_returns_the_marginal topo fuel g Y est :
   identify false topo (S fuel) (mkIdent g [] Y est) = IdOk (sum_safe est (Vs (diff (nodes g) Y)) false).
 Proof. exact (identify_without_treatments false topo fuel g Y est). Qed.
 
 Print Assumptions C01_line1_returns_the_marginal.
+
+(* Line 2: in every functional SCM over the graph, at every exogenous state, the outcomes take under do(ivs) the values they take in the model
+   restricted to G[An(Y)] (the graph line 2 passes on) under the treatments that lie in An(Y) (the treatments line 2 passes on). *)
+Theorem C01_line2_restricts_the_model_to_the_ancestors_of_the_outcomes
+  (I : ident) {D : Type} (U : Type) (f : nat -> (nat -> D) -> U -> D) (rho : nat * bool -> D) order :
+  local (ig I) U f -> is_topo (ig I) order = true ->
+  forall ivs u x x',
+    solution (ig I) U f rho ivs u x ->
+    solution (ig (line_2 I)) U f rho (restrict_ivs (ancestors_inclusive (ig I) (iout I)) ivs) u x' ->
+    forall y, In y (iout I) -> In y (nodes (ig I)) -> x y = x' y.
+Proof.
+  intros Hl Ho ivs u x x' Hs Hs' y Hy Hn.
+  exact (line2_same_values (ig I) U f rho Hl order Ho (iout I) ivs u x x' Hs Hs' y Hn (outcomes_in_their_ancestors (ig I) (iout I) y Hy)).
+Qed.
+
+Theorem C01_line2_passes_on_the_treatments_among_the_ancestors (I : ident) ivs v :
+  (forall w, In w (map fst ivs) <-> In w (itr I)) ->
+  (In v (map fst (restrict_ivs (ancestors_inclusive (ig I) (iout I)) ivs)) <-> In v (itr (line_2 I))).
+Proof.
+  intros H. rewrite restrict_ivs_names. cbn [line_2 itr]. rewrite !In_inter. rewrite H. tauto.
+Qed.
+
+(* Line 3: the nodes it adds to the treatments (no ancestors of the outcomes once the edges into the treatments are cut) may be set to any
+   values without changing the value of any outcome at any exogenous state. *)
+Theorem C01_line3_adds_treatments_without_effect_on_the_outcomes
+  (I : ident) {D : Type} (U : Type) (f : nat -> (nat -> D) -> U -> D) (rho : nat * bool -> D) order :
+  local (ig I) U f -> is_topo (ig I) order = true ->
+  forall ivs extra u x x',
+    (forall v, In v (itr I) -> In v (map fst ivs)) ->
+    (forall i, In i extra -> In (fst i) (get_no_effect_on_outcomes (ig I) (itr I) (iout I))) ->
+    solution (ig I) U f rho ivs u x ->
+    solution (ig I) U f rho (ivs ++ extra) u x' ->
+    forall y, In y (iout I) -> In y (nodes (ig I)) -> x y = x' y.
+Proof.
+  intros Hl Ho ivs extra u x x' HX He Hs Hs' y Hy Hn.
+  exact (line3_same_values (ig I) U f rho Hl order Ho (itr I) (iout I) ivs extra u x x' HX He Hs Hs' y Hn
+           (outcomes_in_their_ancestors _ (iout I) y Hy)).
+Qed.
+
+Theorem C01_line3_treatments (I : ident) :
+  itr (line_3 I) = union (itr I) (get_no_effect_on_outcomes (ig I) (itr I) (iout I)) /\ ig (line_3 I) = ig I /\ iout (line_3 I) = iout I.
+Proof. repeat split. Qed.
+
+(* not vacuous: Z -> X -> Y with do(X): line 3 adds Z, and in the model X := Z, Y := X, Z := u the outcome ignores do(Z) *)
+Example C01_line3_not_vacuous :
+  let g := MG [0; 1; 2] [(2, 0); (0, 1)] [] in
+  let f := fun (v : nat) (x : nat -> bool) (u : bool) => match v with 0 => x 2 | 1 => x 0 | _ => u end in
+  let rho := fun i : nat * bool => snd i in
+  get_no_effect_on_outcomes g [0] [1] = [2] /\ is_topo g [2; 0; 1] = true /\ local g bool f /\
+  forall u, solve bool f rho [2; 0; 1] [(0, false)] u 1 = solve bool f rho [2; 0; 1] ([(0, false)] ++ [(2, true)]) u 1.
+Proof.
+  intros g f rho.
+  assert (Hl : local g bool f).
+  { intros v x x' u H. destruct v as [|[|v]]; cbn; [apply H; cbn; auto|apply H; cbn; auto|reflexivity]. }
+  split; [reflexivity|split; [reflexivity|split; [exact Hl|]]]. intros u.
+  apply (line3_same_outcomes g bool f rho Hl [2; 0; 1] eq_refl [0] [1] [(0, false)] [(2, true)] u 1).
+  - intros v [<-|[]]. left. reflexivity.
+  - intros i [<-|[]]. left. reflexivity.
+  - left. reflexivity.
+  - right. left. reflexivity.
+Qed.
+
+Print Assumptions C01_line2_restricts_the_model_to_the_ancestors_of_the_outcomes.
+Print Assumptions C01_line2_passes_on_the_treatments_among_the_ancestors.
+Print Assumptions C01_line3_adds_treatments_without_effect_on_the_outcomes.
+Print Assumptions C01_line3_treatments.
+Print Assumptions C01_line3_not_vacuous.
